@@ -50,7 +50,7 @@ def main():
         import os as _os
         _rp = _json.load(open(ck.replay_arg if _os.path.isabs(ck.replay_arg) else _os.path.join(common.VERIF, ck.replay_arg)))
         _d = _rp.get("replay", {})
-        if not _d.get("stub_case") and str(_d.get("network", "")).startswith(("sc_fixed", "sc_rand", "wnet")) and _d.get("options"):
+        if not _d.get("stub_case") and str(_d.get("network", "")).startswith(("sc_fixed", "sc_rand", "wnet", "ns_")) and _d.get("options"):
             net_replay.append((_d, int(_rp.get("seed", 0))))
             print("replaying:", _rp.get("what", "")[:300])
     accs = list(Accelerator)
@@ -1412,7 +1412,11 @@ def main():
                         src = srcs.get(pop.ofm.name) or srcs.get(pop.name)
                     ck.count("emitted_expected_from_" + ("source_file" if src is not None else "optimised_graph"))
                     items.append((k, cmd, src))
-                    q_lines.append(c08_pipe.prepq_line_source(src) if src is not None else c08_pipe.prepq_line_graph(wc, pop, pop.bias))
+                    # the tensor written is the result of a later (clamp-only) operator fused into the pass: its quantisation counts
+                    fin = c08_pipe.fused_result_scale(cmd, net)
+                    if fin is not None:
+                        ck.count("emitted_ops_result_of_fused_later_op")
+                    q_lines.append(c08_pipe.prepq_line_source(src, fin) if src is not None else c08_pipe.prepq_line_graph(wc, pop, pop.bias, fin))
                 jobs.append((art, hit, items))
             q_out = iter(ck.model(q_lines))
             e_lines, e_meta = [], []
@@ -1479,6 +1483,20 @@ def main():
             dict(axis="stride", n_ops=3, kernel=(3, 3), oc=32, ic=16, hw=(12, 12), dtype="int8"),
             dict(axis="ifm_bits", n_ops=2, kernel=(3, 3), oc=32, ic=16, hw=(8, 8)),
             dict(axis="same", n_ops=3, kernel=(3, 3), oc=80, ic=32, hw=(8, 8), dtype="int8"),
+            # part 2 (harness/netgen_shared.py): every weight re-laying rewrite, users differing in the parameter the rewrite reads
+            dict(axis="stride_ge4_same_vs_valid", n_ops=2, kernel=(1, 6), oc=8, ic=3, hw=(8, 16), dtype="int8", per_channel=False),
+            dict(axis="stride_ge4_same_vs_valid", n_ops=4, dtype="int8"),
+            dict(axis="padding", n_ops=4, dtype="int8"),
+            dict(axis="stride_ge4_ifm_width", n_ops=3, dtype="int8"),
+            dict(axis="kernel_larger_than_ifm", n_ops=3),
+            dict(axis="dilation_hw", n_ops=4, dtype="int8", dilations=[(3, 3), (3, 1), (1, 3), (6, 6)]),
+            dict(axis="groups", n_ops=3, dtype="int8"),
+            dict(axis="dw_mult", n_ops=3),
+            dict(axis="dw_params", n_ops=3),
+            dict(axis="dw_vs_conv", n_ops=3, dtype="int8"),
+            dict(axis="fc_ifm_shape", n_ops=3),
+            dict(axis="conv1x1_fc", n_ops=3, dtype="int8"),
+            dict(axis="tconv_params", n_ops=3, dtype="int8"),
         ]
         nets = []
         for j, kw in enumerate(fixed):
@@ -1525,6 +1543,18 @@ def main():
             print("VIOLATION (replayed):", w_[:400])
         for k_, w_ in ck.known_hits.items():
             print("KNOWN-FINDING (replayed):", k_)
+        raise SystemExit(1 if (ck.violations or ck.known_hits) else 0)
+
+    # ---- (0b) nearly-equal scales around every requantising boundary (family `near_scale`, harness/gen_nearscale.py) ----
+    for nm_, net_, opts_ in c08_pipe.near_scale_jobs(netgen, ck.seed, T, net_replay):
+        ck.count("near_scale_nets")
+        if net_replay:
+            print("network:", net_.desc[-1], "options:", " ".join(opts_))
+            ck.known_hits.clear()
+        compile_and_check(nm_, netgen.serialize(net_), opts_, net=net_)
+    if net_replay and net_replay[0][0]["network"].startswith("ns_"):
+        for w_, p_, _f in ck.violations:
+            print("VIOLATION (replayed):", w_[:400])
         raise SystemExit(1 if (ck.violations or ck.known_hits) else 0)
 
     def conv_pair_net():
